@@ -220,6 +220,30 @@ def _raise_first(sub: str, spec: dict, found: list) -> None:
     raise Violation(*found[0])
 
 
+def _input_preserved(spec: dict, dump: dict, context: dict) -> None:
+    """ the record was read from GenBank-like features (the spec): writing it must show those genes where the input
+        had them - original location, partial ends, codon_start - while the record itself holds the shifted location """
+    rows = [row for row in dump["features"] if row[0] == "CDS"]
+    secmet = {row[2]: row[3] for row in dump["secmet_features"] if row[0] == "CDS"}
+    for gene in spec["genes"]:
+        fuzzy = tuple(gene.get("fuzzy") or (False, False))
+        want = rec.location_text(rec.to_bio_location(gene["loc"], fuzzy))
+        ident = gene.get("ident", "locus_tag")
+        mine = [row for row in rows if [ident, [gene["name"]]] in row[2]]
+        if len(mine) != 1:
+            raise Violation("input_gene_missing", dict(context, gene=gene["name"], found=len(mine)))
+        quals = dict((key, values) for key, values in mine[0][2])
+        codon_start = gene.get("codon_start", 1)
+        want_qualifier = [str(codon_start)] if (codon_start != 1 or gene.get("explicit_codon_start")) else None
+        if mine[0][1] != want or quals.get("codon_start") != want_qualifier:
+            raise Violation("input_gene_location", dict(context, gene=gene["name"], want=[want, want_qualifier],
+                                                        got=[mine[0][1], quals.get("codon_start")]))
+        shifted = rec.location_text(rec.to_bio_location(rec.shifted(gene["loc"], codon_start), fuzzy))
+        if secmet.get(gene["name"]) != shifted:
+            raise Violation("input_gene_shifted_location", dict(context, gene=gene["name"], want=shifted,
+                                                                got=secmet.get(gene["name"])))
+
+
 def _start(spec: dict):
     """ builds R and checks that writing it is repeatable; returns (built, classes, context) or a skip result """
     built, classes = _build(spec)
@@ -255,6 +279,7 @@ def check_genbank(spec: dict) -> dict:
         first = rec.canonical_dump(record, strandless_as_forward=True)
         again = rec.canonical_dump(record, strandless_as_forward=True)
     _repeatable(first, again, context)
+    _input_preserved(spec, first, context)
     if spec.get("via_file"):
         # the file based pair Record.to_genbank / Record.from_genbank
         from antismash.common.secmet import Record
@@ -308,6 +333,7 @@ def check_json(spec: dict) -> dict:
     with code_under_test("json_write_total"):
         first = rec.canonical_dump(record)
         text = _json_text(record)
+    _input_preserved(spec, first, context)
     _repeatable(first, rec.canonical_dump(record), context)
     with code_under_test("json_reload_total"):
         reloaded = record_from_json(std_json.loads(text), built.taxon)
